@@ -142,14 +142,14 @@ PROPS = {
         "coq_deps": ["Sched", "SchedState"],
         "steps": [{"sub": "c12", "quick": [0], "thorough": [1], "timeout": 1200}],
         "rule": "two and three publish calls on clones of one directory (shared label between batches; cached and uncached manager; both configurations) over gated storage: exhaustive schedules with one pre-emption pair (i, j) for two tasks (sampled in quick tier), random multi-pre-emption schedules for three; returned epochs must be distinct and consecutive, the final database must equal serial application in epoch order, every returned (epoch, hash) must be that epoch's hash and the audit over them must verify; the epochs handed out are also predicted by the protocol model run under the same schedule (c12 lines)",
-        "assumptions": ["each storage operation is atomic; pre-emption inside a storage operation and real multi-threading are not modelled (limit stated in DESIGN.md)"],
+        "assumptions": ["the protocol model (Sched.v / SchedState.v) takes one or more storage operations as one step; pre-emption inside a storage operation is not modelled; real multi-threading is exercised on the code by the parallel runs (c12_parallel), not modelled"],
     },
     "C13": {
         "coq_deps": ["StoreFacts", "StoreConc", "PollProto", "TxnProto"],
         "steps": [{"sub": "c13", "quick": [0], "thorough": [1], "timeout": 1200},
                   {"sub": "c11", "quick": [0], "thorough": [0], "timeout": 3000}],
         "rule": "a reader request (lookup of two labels, key history, audit, epoch hash) interleaved with a publish under explicit schedules, on the writer instance, on a separate uncached instance and on a separate cached instance whose view lags storage by 0-3 epochs; every Ok answer must name an (epoch, root hash) pair the directory published and verify against it; the change poller must make later requests use an epoch at least as new as the signalled one; the version-selection model is tied by the store-level lines of the c11 step",
-        "assumptions": ["each storage operation is atomic in the protocol model; pre-emption between a storage operation and its return to the caller is explored on the real code (this is how K3 was reproduced; fixed by b5f126b)"],
+        "assumptions": ["the transition systems StoreConc / PollProto / TxnProto take every step between two awaits as atomic and assume what tokio's RwLock provides (requests shared for their whole duration, the poller exclusive); they are tied to the code by oracle scenarios (gated schedules, a multi-thread runtime with slow and rejected commits), not replayed trace for trace; pre-emption between a storage operation and its return to the caller is explored on the real code (this is how K3 was reproduced)"],
     },
     "C14": {
         "coq_deps": ["InsertFacts", "InsertRefine", "ParallelIns"],
